@@ -7,6 +7,7 @@ import (
 	"go/token"
 	"go/types"
 	"sort"
+	"regexp"
 	"strings"
 
 	"golang.org/x/tools/go/ssa"
@@ -104,6 +105,7 @@ type loopInfo struct {
 	ordinal int
 	entrySt *State // merged state at loop entry (before havoc)
 	headSt  *State // state after havoc + invariant
+	writtenLocalObjs map[*ssa.Alloc]bool // struct-valued locals the loop body stores into
 }
 
 func (fc *FnCtx) abstract(what string) { fc.abstracted[what] = true }
@@ -347,7 +349,7 @@ func (fc *FnCtx) typeInvFormula(c string, t types.Type, bound string) string {
 		}
 		return f
 	case sIface:
-		return fmt.Sprintf("(and (<= 0 (itag %s)) (<= 0 (rbase (iref %s))) (<= (rbase (iref %s)) %s) (=> (= (itag %s) 0) (= %s %s)))", c, c, c, bound, c, c, zeroOf(sIface))
+		return fmt.Sprintf("(and (<= 0 (itag %s)) (<= 0 (rbase (iref %s))) (<= (rbase (iref %s)) %s) (<= 0 (roff (iref %s))) (=> (= (rbase (iref %s)) 0) (= (roff (iref %s)) 0)) (=> (= (itag %s) 0) (= %s %s)))", c, c, c, bound, c, c, c, c, c, zeroOf(sIface))
 	case sStr:
 		return fmt.Sprintf("(and (>= (strlen %s) 0) (= (= (strlen %s) 0) (= %s lit_empty)))", c, c, c)
 	}
@@ -402,9 +404,22 @@ func (fc *FnCtx) loadAtInv(st *State, addr Val, t types.Type, hint string) Val {
 	}
 	c := fc.q.freshConst(hint, srt)
 	fc.q.assert(implies(st.reach, eq(c, v.T)))
-	fc.typeInvB(st, c, t, st.boundOf(arr))
+	fc.typeInvB(st, c, t, refinedBound(st, arr, v.T))
 	v.T = c
 	return v
+}
+
+// refinedBound: the age bound of the references in a value read from arr. A read that (after looking through stores to
+// other cells) comes from the entry version of the array is as old as the function's entry, whatever was stored into
+// other cells of the array since.
+func refinedBound(st *State, arr, valueTerm string) string {
+	if strings.HasPrefix(valueTerm, "(select ") {
+		rest := valueTerm[len("(select "):]
+		if i := strings.IndexByte(rest, ' '); i > 0 && strings.HasSuffix(rest[:i], "!e0") {
+			return "alloc0"
+		}
+	}
+	return st.boundOf(arr)
 }
 
 // storeAt writes v (of Go type t) to address addr.
@@ -761,9 +776,20 @@ func (fc *FnCtx) loopWrites(li *loopInfo) (locals []*ssa.Alloc, arrs map[string]
 	arrs = map[string]bool{}
 	ghosts = map[string]bool{}
 	lset := map[*ssa.Alloc]bool{}
+	li.writtenLocalObjs = map[*ssa.Alloc]bool{}
 	for b := range li.blocks {
 		for _, in := range b.Instrs {
 			fr := fc.g.closeDeps(fc.g.instrFrame(fc.fn, in, false))
+			if s, ok := in.(*ssa.Store); ok {
+				// inside a loop, stores into objects of this function count as well (struct-valued locals live in the
+				// heap arrays at their own reference; fresh heap objects made before the loop are shared by all iterations)
+				if a := rootAlloc(s.Addr); a != nil && !fc.isSimpleLocal(a) {
+					fc.g.storeFrameX(fc.fn, s.Addr, s.Addr.Type().Underlying().(*types.Pointer).Elem(), fr, true)
+					if !a.Heap {
+						li.writtenLocalObjs[a] = true
+					}
+				}
+			}
 			if fr.top {
 				top = true
 			}
@@ -811,6 +837,12 @@ func (fc *FnCtx) enterLoop(li *loopInfo, st *State) {
 			fc.err = fmt.Errorf("%s: loop %d invariant %q: %v", fc.name, li.ordinal, c.Text, err)
 			return
 		}
+		if c.Expr.Op == "call" && c.Expr.Name == "unchangedOutside" {
+			for _, part := range splitTopAnd(t) {
+				fc.oblige(st, "inv-entry", fmt.Sprintf("loop%d/%s/%s", li.ordinal, c.Label, frameArrayName(part)), part, li.header.Instrs[0].Pos(), c.Props)
+			}
+			continue
+		}
 		fc.oblige(st, "inv-entry", fmt.Sprintf("loop%d/%s", li.ordinal, c.Label), t, li.header.Instrs[0].Pos(), c.Props)
 	}
 	// havoc
@@ -833,7 +865,13 @@ func (fc *FnCtx) enterLoop(li *loopInfo, st *State) {
 		for a := range arrs {
 			as = append(as, a)
 		}
-		st.havocArrs(as)
+		skip := map[string]bool{}
+		for a := range li.writtenLocalObjs {
+			if v, ok := fc.vals[a]; ok {
+				skip[v.T] = true
+			}
+		}
+		st.havocArrsKeeping(as, skip)
 		na := fc.q.freshConst("alloc@loop", sInt)
 		fc.q.assert(implies(st.reach, fmt.Sprintf("(>= %s %s)", na, st.alloc())))
 		st.allocB, st.allocK = na, 0
@@ -944,6 +982,12 @@ func (fc *FnCtx) closeLoop(li *loopInfo, st *State, edgeCond string) {
 			fc.err = fmt.Errorf("%s: loop %d invariant %q: %v", fc.name, li.ordinal, c.Text, err)
 			return
 		}
+		if c.Expr.Op == "call" && c.Expr.Name == "unchangedOutside" {
+			for _, part := range splitTopAnd(t) {
+				fc.oblige(bst, "inv-preserve", fmt.Sprintf("loop%d/%s/%s", li.ordinal, c.Label, frameArrayName(part)), part, li.header.Instrs[0].Pos(), c.Props)
+			}
+			continue
+		}
 		fc.oblige(bst, "inv-preserve", fmt.Sprintf("loop%d/%s", li.ordinal, c.Label), t, li.header.Instrs[0].Pos(), c.Props)
 	}
 	for k, v := range saved {
@@ -1018,7 +1062,6 @@ func (fc *FnCtx) finish() {
 		}
 	}
 	env := fc.selfEnv(fc.entry, exit, results)
-	env.frameArrs = sortedKeys(fc.written)
 	if fc.con.Invokes != "" {
 		cnt := exit.ghostGet("#"+fc.con.Invokes, sInt, "0")
 		fc.oblige(exit, "post", "invokes_"+fc.con.Invokes+"_exactly_once", eq(cnt, "1"), fc.fn.Pos(), nil)
@@ -1043,6 +1086,13 @@ func (fc *FnCtx) finish() {
 			fc.err = fmt.Errorf("%s: ensures %q: %v", fc.name, c.Text, err)
 			return
 		}
+		if c.Expr.Op == "call" && c.Expr.Name == "unchangedOutside" {
+			// a frame postcondition: one obligation per array, so that a failure names the array
+			for _, part := range splitTopAnd(t) {
+				fc.oblige(exit, "post", c.Label+"/"+frameArrayOf(part), part, fc.fn.Pos(), c.Props)
+			}
+			continue
+		}
 		o := fc.oblige(exit, "post", c.Label, t, fc.fn.Pos(), c.Props)
 		o.Inputs = fc.inputs
 		if c.Cover != nil {
@@ -1053,4 +1103,76 @@ func (fc *FnCtx) finish() {
 			}
 		}
 	}
+}
+
+// splitTopAnd: the conjuncts of "(and a b ...)" (the term itself otherwise).
+func splitTopAnd(t string) []string {
+	if !strings.HasPrefix(t, "(and ") {
+		return []string{t}
+	}
+	var out []string
+	depth, start := 0, -1
+	body := t[5 : len(t)-1]
+	for i := 0; i < len(body); i++ {
+		switch body[i] {
+		case '(':
+			if depth == 0 {
+				start = i
+			}
+			depth++
+		case ')':
+			depth--
+			if depth == 0 && start >= 0 {
+				out = append(out, body[start:i+1])
+				start = -1
+			}
+		case ' ':
+		default:
+			if depth == 0 && start < 0 {
+				j := i
+				for j < len(body) && body[j] != ' ' {
+					j++
+				}
+				out = append(out, body[i:j])
+				i = j
+			}
+		}
+	}
+	return out
+}
+
+var frameArrRe = regexp.MustCompile(`:pattern \(\(select ([A-Za-z0-9_.$!@]+)`)
+
+func frameArrayOf(part string) string { return frameArrayName(part) }
+
+// frameArrayName: the array a frame conjunct talks about, without its version suffix (stable across runs).
+func frameArrayName(part string) string {
+	if m := frameArrRe.FindStringSubmatch(part); m != nil {
+		n := m[1]
+		if i := strings.IndexAny(n, "!@"); i > 0 {
+			n = n[:i]
+		}
+		return n
+	}
+	return fmt.Sprintf("%x", hashStr(part))
+}
+
+// rootAlloc: the allocation an address is a field or element of (nil when it is reached through a load).
+func rootAlloc(addr ssa.Value) *ssa.Alloc {
+	root := addr
+	for {
+		switch x := root.(type) {
+		case *ssa.FieldAddr:
+			root = x.X
+			continue
+		case *ssa.IndexAddr:
+			if _, isPtr := x.X.Type().Underlying().(*types.Pointer); isPtr {
+				root = x.X
+				continue
+			}
+		}
+		break
+	}
+	a, _ := root.(*ssa.Alloc)
+	return a
 }
